@@ -7,6 +7,20 @@ MUTATING = {'insert', 'emplace', 'emplace_back', 'push_back', 'pop_back', 'erase
 ASSIGN_OPS = {'=', '+=', '-=', '*=', '/=', '%=', '|=', '&=', '^=', '<<=', '>>='}
 
 
+_FN = [None]
+
+
+def _ref_init(n):
+    """initialiser of a local declared as a reference (`auto &x = E;`): x IS E."""
+    fn = _FN[0]
+    if fn is None or not n.get('local') or not hasattr(fn, 'decl'):
+        return None
+    d = fn.decl(n.get('dloc'))
+    if d is not None and (d.get('t') or '').rstrip().endswith('&') and isinstance(d.get('init'), dict) and not d.get('bindings'):
+        return d['init']
+    return None
+
+
 def root_of(n):
     """(kind, name, node): the variable an lvalue expression is rooted in.
     kind 'field' (member of *this), 'local', 'param', 'other'."""
@@ -29,6 +43,10 @@ def root_of(n):
             if n.get('refk') == 'ParmVar':
                 return 'param', n.get('ref'), n
             if n.get('local'):
+                ri = _ref_init(n)
+                if ri is not None:
+                    n = ri
+                    continue
                 return 'local', n.get('ref'), n
             return 'other', n.get('ref'), n
         if k == 'CXXOperatorCallExpr' and n.get('op') in ('[]', '*', '->'):
@@ -85,6 +103,11 @@ def path_fields(n):
                 n = c[0] if c else None
                 continue
             return out
+        if k == 'DeclRefExpr':
+            ri = _ref_init(n)
+            if ri is not None:
+                n = ri
+                continue
         return out
     return out
 
@@ -100,6 +123,7 @@ class Store:
 def stores(fn):
     """every mutation of a variable in fn: assignments, ++/--, mutating container calls."""
     out = []
+    _FN[0] = fn if hasattr(fn, 'decl') else getattr(fn, 'fn', None)
     for n in fn.nodes():
         if n.get('as'):
             continue
